@@ -3,7 +3,8 @@
    2. sort_by_key yields a sorted permutation;
    3. THE NAMING THEOREM: the order agrees with the order in which the logger creates the files of one infix -
       the file without restart counter first, then the restart counters numerically, whatever the suffix is,
-      however many digits the counter has, and whether or not the files are compressed;
+      however many digits the counter has, whether or not the files are compressed, and whatever the fixed name
+      part and the infix contain (the sort key reads the counter behind the LAST ".restart-" of the stem);
    4. hence in the listing (newest first) a higher restart counter comes before a lower one. *)
 Require Import FL.Base.Bytes FL.Base.BytesFacts FL.Base.PathName FL.Fs.Fs FL.Names.FileSpec FL.Names.NamesFacts.
 From Coq Require Import ZifyN ZifyNat ZifyBool Permutation Sorted.
@@ -483,7 +484,7 @@ Definition sk_stem (sfx : option bytes) (n : bytes) : bytes :=
   | None => s1
   end.
 Definition stem_key (stem : bytes) : bytes * option (nat * bytes) :=
-  match find_sub restart_tag stem with
+  match find_last_sub restart_tag stem with
   | Some ix => let digits := skipn (ix + 9) stem in
                if negb (beq digits []) && forallb is_digit digits
                then let d := drop_zeros digits in (firstn ix stem, Some (length d, d))
@@ -546,13 +547,94 @@ Proof.
     pose proof (sk_tag_no_overlap c B D Ep) as Eq. cbn [app] in Eq |- *. cbn [find_sub]. rewrite Eq, (IH Hc'). reflexivity.
 Qed.
 
-Lemma stem_key_plain B : contains restart_tag B = false -> stem_key B = (B, None).
-Proof. unfold contains, stem_key. destruct (find_sub restart_tag B); [discriminate|reflexivity]. Qed.
+(* find_last_sub (str::rsplit_once): the LAST occurrence *)
+Lemma find_last_sub_prefix pat : forall s ix, find_last_sub pat s = Some ix -> is_prefix pat (skipn ix s) = true.
+Proof.
+  induction s as [|x s IH]; intros ix H; cbn [find_last_sub] in H.
+  - destruct (is_prefix pat []) eqn:E; [injection H as <-; exact E | discriminate].
+  - destruct (find_last_sub pat s) as [j|] eqn:Ej.
+    + injection H as <-. cbn [skipn]. apply IH. reflexivity.
+    + destruct (is_prefix pat (x :: s)) eqn:E; [injection H as <-; exact E | discriminate].
+Qed.
 
-Lemma stem_key_restart B D : contains restart_tag B = false -> D <> [] -> all_digits D = true ->
+Lemma find_last_sub_none pat : forall s, find_last_sub pat s = None <-> find_sub pat s = None.
+Proof.
+  induction s as [|x s IH]; cbn [find_last_sub find_sub].
+  - destruct (is_prefix pat []); split; congruence.
+  - destruct (find_last_sub pat s) as [j|], (find_sub pat s) as [j'|]; destruct (is_prefix pat (x :: s));
+      try (split; congruence); exfalso; destruct IH as [I1 I2]; (discriminate (I1 eq_refl) || discriminate (I2 eq_refl)).
+Qed.
+
+Lemma find_last_sub_lt pat : pat <> [] -> forall s ix, find_last_sub pat s = Some ix -> (ix < length s)%nat.
+Proof.
+  intros Hp. induction s as [|x s IH]; intros ix H; cbn [find_last_sub] in H.
+  - destruct pat; [congruence | discriminate H].
+  - cbn [length]. destruct (find_last_sub pat s) as [j|].
+    + injection H as <-. specialize (IH j eq_refl). lia.
+    + destruct (is_prefix pat (x :: s)); [injection H as <-; lia | discriminate].
+Qed.
+
+(* in front of the last occurrence anything may stand *)
+Lemma find_last_sub_skip pat p : forall s i, find_last_sub pat s = Some i -> find_last_sub pat (p ++ s) = Some (length p + i)%nat.
+Proof. induction p as [|c p IH]; intros s i H; cbn [app length Nat.add find_last_sub]; [exact H|]. rewrite (IH s i H). reflexivity. Qed.
+
+Lemma find_last_sub_here pat c s : is_prefix pat (c :: s) = true -> find_sub pat s = None -> find_last_sub pat (c :: s) = Some O.
+Proof. intros Hp Hn. cbn [find_last_sub]. rewrite (proj2 (find_last_sub_none pat s) Hn), Hp. reflexivity. Qed.
+
+(* ".restart-" starts with a dot: it neither starts within a part without dot, nor is it found there *)
+Lemma sk_skip_no_dot A B : ~ In dot A -> contains restart_tag (A ++ B) = contains restart_tag B.
+Proof.
+  induction A as [|c A IH]; intros H; [reflexivity|].
+  assert (Hc : c <> dot) by (intros ->; apply H; left; reflexivity).
+  assert (IH' : contains restart_tag (A ++ B) = contains restart_tag B) by (apply IH; intros I; apply H; right; exact I).
+  assert (E : is_prefix restart_tag (c :: A ++ B) = false).
+  { unfold restart_tag. cbn [is_prefix]. destruct (N.eqb_spec 46 c) as [E0|_]; [exfalso; apply Hc; symmetry; exact E0 | reflexivity]. }
+  unfold contains in *. cbn [app find_sub]. rewrite E. destruct (find_sub restart_tag (A ++ B)); exact IH'.
+Qed.
+
+Lemma sk_no_dot_no_tag s : ~ In dot s -> contains restart_tag s = false.
+Proof. intros H. rewrite <- (app_nil_r s), (sk_skip_no_dot s [] H). reflexivity. Qed.
+
+Lemma all_digits_no_dot D : all_digits D = true -> ~ In dot D.
+Proof.
+  induction D as [|c D IH]; [intros _ []|]. cbn [all_digits]. rewrite andb_true_iff, is_digit_iff. intros [Hc Hd] [E|I]; [|exact (IH Hd I)].
+  unfold dot in E. lia.
+Qed.
+
+(* THE LAST OCCURRENCE: behind ANY part B, when no further ".restart-" follows *)
+Lemma sk_find_last_tag_app B D : contains restart_tag D = false ->
+  find_last_sub restart_tag (B ++ restart_tag ++ D) = Some (length B).
+Proof.
+  intros Hd. rewrite (find_last_sub_skip restart_tag B (restart_tag ++ D) O); [f_equal; lia|].
+  change (restart_tag ++ D) with (dot :: restart_word ++ D).
+  apply find_last_sub_here; [exact (sk_is_prefix_app restart_tag D)|].
+  assert (X : contains restart_tag (restart_word ++ D) = false).
+  { rewrite sk_skip_no_dot; [exact Hd|]. unfold restart_word, dot. cbn [In]. intros X. repeat (destruct X as [X|X]; [discriminate X|]). exact X. }
+  unfold contains in X. destruct (find_sub restart_tag (restart_word ++ D)); [discriminate | reflexivity].
+Qed.
+
+Lemma sk_find_last_tag_digits B D : all_digits D = true -> find_last_sub restart_tag (B ++ restart_tag ++ D) = Some (length B).
+Proof. intros Hd. apply sk_find_last_tag_app, sk_no_dot_no_tag, all_digits_no_dot, Hd. Qed.
+
+Lemma stem_key_plain B : contains restart_tag B = false -> stem_key B = (B, None).
+Proof.
+  unfold contains, stem_key. intros H. destruct (find_sub restart_tag B) eqn:E; [discriminate|].
+  rewrite (proj2 (find_last_sub_none restart_tag B) E). reflexivity.
+Qed.
+
+(* whatever the stem is: either it is its own main part, or the main part is a proper prefix of it *)
+Lemma stem_key_cases B : stem_key B = (B, None) \/ exists ix r, (ix < length B)%nat /\ stem_key B = (firstn ix B, Some r).
+Proof.
+  unfold stem_key. destruct (find_last_sub restart_tag B) as [ix|] eqn:E; [|left; reflexivity]. cbv zeta.
+  destruct (negb (beq (skipn (ix + 9) B) []) && forallb is_digit (skipn (ix + 9) B)); [right | left; reflexivity].
+  exists ix. eexists. split; [|reflexivity]. apply (find_last_sub_lt restart_tag) in E; [exact E | discriminate].
+Qed.
+
+(* no hypothesis on B: the counter is read behind the LAST ".restart-" *)
+Lemma stem_key_restart B D : D <> [] -> all_digits D = true ->
   stem_key (B ++ restart_tag ++ D) = (B, Some (length (drop_zeros D), drop_zeros D)).
 Proof.
-  intros Hc Hne Hd. unfold stem_key. rewrite (sk_find_tag_app B D Hc). cbv zeta.
+  intros Hne Hd. unfold stem_key. rewrite (sk_find_last_tag_digits B D Hd). cbv zeta.
   rewrite sk_skipn_app. change (skipn 9 (restart_tag ++ D)) with D.
   rewrite forallb_is_digit, Hd, sk_firstn_app. destruct D; [congruence|]. reflexivity.
 Qed.
@@ -595,21 +677,48 @@ Proof.
   rewrite sort_key_stem, (sk_stem_with_suffix _ _ _ Hgz). apply stem_key_plain, Hc.
 Qed.
 
+(* without the hypothesis on ".restart-": the main part is the stem or a proper prefix of it *)
+Lemma sort_key_plain_name_cases sp fixed i g : i <> [] ->
+  strip_suffix (dot :: gz_sfx) (as_name sp fixed (Some i)) = None ->
+  let n0 := add_gz g (as_name sp fixed (Some i)) in
+  sort_key (fsfx sp) n0 = (under fixed ++ i, None)
+  \/ exists ix r, (ix < length (under fixed ++ i))%nat /\ sort_key (fsfx sp) n0 = (firstn ix (under fixed ++ i), Some r).
+Proof.
+  intros Hne Hgz n0. subst n0. rewrite (sk_as_name_some _ _ _ Hne) in *.
+  rewrite sort_key_stem, (sk_stem_with_suffix _ _ _ Hgz). apply stem_key_cases.
+Qed.
+
+(* the fixed name part and the infix may contain ".restart-" themselves: the counter is the one behind the last one *)
 Lemma sort_key_restart_name sp fixed i j k g : j <> [] ->
-  contains restart_tag (under fixed ++ i) = false ->
   strip_suffix (dot :: gz_sfx) (as_name sp fixed (Some j)) = None ->
   sort_key (fsfx sp) (add_gz g (as_name sp fixed (Some (restart_infix i k))))
   = (under fixed ++ i, Some (length (drop_zeros (restart_digits k)), drop_zeros (restart_digits k))).
 Proof.
-  intros Hne Hc Hgz. rewrite as_name_restart.
+  intros Hne Hgz. rewrite as_name_restart.
   rewrite sort_key_stem, (sk_stem_with_suffix _ _ _ (with_suffix_no_gz_restart sp fixed i j k Hne Hgz)).
-  apply stem_key_restart; [exact Hc | apply restart_digits_nonempty | apply restart_digits_all].
+  apply stem_key_restart; [apply restart_digits_nonempty | apply restart_digits_all].
 Qed.
 
 (* names with the same main part and different restart keys are ordered by the restart keys *)
 Lemma key_le_by_rkey sfx x y m rx ry :
   sort_key sfx x = (m, rx) -> sort_key sfx y = (m, ry) -> rkey_eq rx ry = false -> key_le sfx x y = rkey_le rx ry.
 Proof. intros Ex Ey Hne. unfold key_le. rewrite Ex, Ey, beq_refl, Hne. reflexivity. Qed.
+
+(* names with different main parts are ordered by the main parts *)
+Lemma key_le_by_main sfx x y mx my rx ry :
+  sort_key sfx x = (mx, rx) -> sort_key sfx y = (my, ry) -> mx <> my -> key_le sfx x y = lex_le mx my.
+Proof. intros Ex Ey Hne. unfold key_le. rewrite Ex, Ey, (beq_neq _ _ Hne). reflexivity. Qed.
+
+(* a proper prefix is smaller *)
+Lemma lex_lt_firstn B : forall ix, (ix < length B)%nat -> lex_lt (firstn ix B) B = true.
+Proof.
+  induction B as [|x B IH]; intros ix H; [cbn [length] in H; lia|].
+  destruct ix as [|ix]; [reflexivity|]. cbn [firstn lex_lt length] in *. rewrite N.ltb_irrefl, N.eqb_refl. cbn [orb andb].
+  apply IH. lia.
+Qed.
+
+Lemma firstn_proper (B : bytes) ix : (ix < length B)%nat -> firstn ix B <> B.
+Proof. intros H E. apply (f_equal (@length N)) in E. rewrite firstn_length in E. lia. Qed.
 
 Lemma rkey_eq_sym a b : rkey_eq a b = rkey_eq b a.
 Proof.
@@ -619,38 +728,42 @@ Proof.
 Qed.
 
 (* (a)+(c): the file without restart counter sorts strictly before every file with one; g0, g1 say whether
-   the respective file is compressed (carries an additional ".gz") *)
+   the respective file is compressed (carries an additional ".gz").  No hypothesis on ".restart-" in the fixed
+   name part or in the infix: if the stem under fixed ++ i itself ends with ".restart-<digits>", the main part of
+   the plain name is a proper prefix of the main part of the other one, and the plain name still comes first *)
 Theorem naming_plain_before_restart : forall sp sfx fixed i k (g0 g1 : bool),
   fsfx sp = sfx -> i <> [] ->
-  contains restart_tag (under fixed ++ i) = false ->
   strip_suffix (dot :: gz_sfx) (as_name sp fixed (Some i)) = None ->
   let n0 := add_gz g0 (as_name sp fixed (Some i)) in
   let n1 := add_gz g1 (as_name sp fixed (Some (restart_infix i k))) in
   key_le sfx n0 n1 = true /\ key_le sfx n1 n0 = false.
 Proof.
-  intros sp sfx fixed i k g0 g1 <- Hne Hc Hgz n0 n1. subst n0 n1.
-  pose proof (sort_key_plain_name sp fixed i g0 Hne Hc Hgz) as E0.
-  pose proof (sort_key_restart_name sp fixed i i k g1 Hne Hc Hgz) as E1.
-  split.
-  - rewrite (key_le_by_rkey _ _ _ _ _ _ E0 E1); reflexivity.
-  - rewrite (key_le_by_rkey _ _ _ _ _ _ E1 E0); reflexivity.
+  intros sp sfx fixed i k g0 g1 <- Hne Hgz n0 n1. subst n0 n1.
+  pose proof (sort_key_restart_name sp fixed i i k g1 Hne Hgz) as E1.
+  destruct (sort_key_plain_name_cases sp fixed i g0 Hne Hgz) as [E0|[ix [r [Hix E0]]]].
+  - split.
+    + rewrite (key_le_by_rkey _ _ _ _ _ _ E0 E1); reflexivity.
+    + rewrite (key_le_by_rkey _ _ _ _ _ _ E1 E0); reflexivity.
+  - pose proof (firstn_proper _ _ Hix) as Hd. pose proof (lex_lt_firstn _ _ Hix) as Hl. split.
+    + rewrite (key_le_by_main _ _ _ _ _ _ _ E0 E1 Hd). unfold lex_le. rewrite (lex_lt_asym _ _ Hl). reflexivity.
+    + rewrite (key_le_by_main _ _ _ _ _ _ _ E1 E0 (fun E => Hd (eq_sym E))). unfold lex_le. rewrite Hl. reflexivity.
 Qed.
 
-(* (b)+(c): restart counters sort numerically, strictly.  No hypothesis on the number of digits; the hypothesis
+(* (b)+(c): restart counters sort numerically, strictly.  No hypothesis on the number of digits, none on ".restart-"
+   in the fixed name part or in the infix (the sort key reads the counter behind the LAST ".restart-"); the hypothesis
    on ".gz" may be given for any non-empty infix j (it only concerns the suffix when there is one, and is not
    needed at all without suffix) *)
 Theorem naming_restart_order : forall sp sfx fixed i j k1 k2 (g1 g2 : bool),
   fsfx sp = sfx -> j <> [] ->
-  contains restart_tag (under fixed ++ i) = false ->
   strip_suffix (dot :: gz_sfx) (as_name sp fixed (Some j)) = None ->
   k1 < k2 ->
   let n1 := add_gz g1 (as_name sp fixed (Some (restart_infix i k1))) in
   let n2 := add_gz g2 (as_name sp fixed (Some (restart_infix i k2))) in
   key_le sfx n1 n2 = true /\ key_le sfx n2 n1 = false.
 Proof.
-  intros sp sfx fixed i j k1 k2 g1 g2 <- Hne Hc Hgz Hlt n1 n2. subst n1 n2.
-  pose proof (sort_key_restart_name sp fixed i j k1 g1 Hne Hc Hgz) as E1.
-  pose proof (sort_key_restart_name sp fixed i j k2 g2 Hne Hc Hgz) as E2.
+  intros sp sfx fixed i j k1 k2 g1 g2 <- Hne Hgz Hlt n1 n2. subst n1 n2.
+  pose proof (sort_key_restart_name sp fixed i j k1 g1 Hne Hgz) as E1.
+  pose proof (sort_key_restart_name sp fixed i j k2 g2 Hne Hgz) as E2.
   destruct (rkey_restart_lt k1 k2 Hlt) as [L12 [L21 Q]].
   split.
   - rewrite (key_le_by_rkey _ _ _ _ _ _ E1 E2 Q). exact L12.
@@ -660,22 +773,20 @@ Qed.
 (* the uncompressed instances, as in the task statement *)
 Corollary naming_a : forall sp sfx fixed i k,
   fsfx sp = sfx -> i <> [] ->
-  contains restart_tag (under fixed ++ i) = false ->
   strip_suffix (dot :: gz_sfx) (as_name sp fixed (Some i)) = None ->
   key_le sfx (as_name sp fixed (Some i)) (as_name sp fixed (Some (restart_infix i k))) = true /\
   key_le sfx (as_name sp fixed (Some (restart_infix i k))) (as_name sp fixed (Some i)) = false.
-Proof. intros sp sfx fixed i k Hs Hne Hc Hgz. exact (naming_plain_before_restart sp sfx fixed i k false false Hs Hne Hc Hgz). Qed.
+Proof. intros sp sfx fixed i k Hs Hne Hgz. exact (naming_plain_before_restart sp sfx fixed i k false false Hs Hne Hgz). Qed.
 
 Corollary naming_b : forall sp sfx fixed i k1 k2,
   fsfx sp = sfx -> i <> [] ->
-  contains restart_tag (under fixed ++ i) = false ->
   strip_suffix (dot :: gz_sfx) (as_name sp fixed (Some i)) = None ->
   k1 < k2 ->
   key_le sfx (as_name sp fixed (Some (restart_infix i k1))) (as_name sp fixed (Some (restart_infix i k2))) = true /\
   key_le sfx (as_name sp fixed (Some (restart_infix i k2))) (as_name sp fixed (Some (restart_infix i k1))) = false.
 Proof.
-  intros sp sfx fixed i k1 k2 Hs Hne Hc Hgz Hlt.
-  exact (naming_restart_order sp sfx fixed i i k1 k2 false false Hs Hne Hc Hgz Hlt).
+  intros sp sfx fixed i k1 k2 Hs Hne Hgz Hlt.
+  exact (naming_restart_order sp sfx fixed i i k1 k2 false false Hs Hne Hgz Hlt).
 Qed.
 
 (* ------------------------------------------------------------------------------------------------------ *)
@@ -683,7 +794,6 @@ Qed.
 
 Theorem listing_restart_order : forall sp sfx fixed i j k1 k2 (g1 g2 : bool) l,
   fsfx sp = sfx -> j <> [] ->
-  contains restart_tag (under fixed ++ i) = false ->
   strip_suffix (dot :: gz_sfx) (as_name sp fixed (Some j)) = None ->
   k1 < k2 ->
   let n1 := add_gz g1 (as_name sp fixed (Some (restart_infix i k1))) in
@@ -691,29 +801,27 @@ Theorem listing_restart_order : forall sp sfx fixed i j k1 k2 (g1 g2 : bool) l,
   In n1 l -> In n2 l ->
   exists l1 l2 l3, rev (sort_by_key sfx l) = l1 ++ n2 :: l2 ++ n1 :: l3.
 Proof.
-  intros sp sfx fixed i j k1 k2 g1 g2 l Hs Hne Hc Hgz Hlt n1 n2 H1 H2.
+  intros sp sfx fixed i j k1 k2 g1 g2 l Hs Hne Hgz Hlt n1 n2 H1 H2.
   apply listing_order; [exact H1 | exact H2 |].
-  exact (proj2 (naming_restart_order sp sfx fixed i j k1 k2 g1 g2 Hs Hne Hc Hgz Hlt)).
+  exact (proj2 (naming_restart_order sp sfx fixed i j k1 k2 g1 g2 Hs Hne Hgz Hlt)).
 Qed.
 
 Theorem listing_plain_last : forall sp sfx fixed i k (g0 g1 : bool) l,
   fsfx sp = sfx -> i <> [] ->
-  contains restart_tag (under fixed ++ i) = false ->
   strip_suffix (dot :: gz_sfx) (as_name sp fixed (Some i)) = None ->
   let n0 := add_gz g0 (as_name sp fixed (Some i)) in
   let n1 := add_gz g1 (as_name sp fixed (Some (restart_infix i k))) in
   In n0 l -> In n1 l ->
   exists l1 l2 l3, rev (sort_by_key sfx l) = l1 ++ n1 :: l2 ++ n0 :: l3.
 Proof.
-  intros sp sfx fixed i k g0 g1 l Hs Hne Hc Hgz n0 n1 H0 H1.
+  intros sp sfx fixed i k g0 g1 l Hs Hne Hgz n0 n1 H0 H1.
   apply listing_order; [exact H0 | exact H1 |].
-  exact (proj2 (naming_plain_before_restart sp sfx fixed i k g0 g1 Hs Hne Hc Hgz)).
+  exact (proj2 (naming_plain_before_restart sp sfx fixed i k g0 g1 Hs Hne Hgz)).
 Qed.
 
 (* the same for the listing of a directory *)
 Corollary related_files_restart_order : forall f sp sfx fixed i j k1 k2 (g1 g2 : bool),
   fsfx sp = sfx -> j <> [] ->
-  contains restart_tag (under fixed ++ i) = false ->
   strip_suffix (dot :: gz_sfx) (as_name sp fixed (Some j)) = None ->
   k1 < k2 ->
   let n1 := add_gz g1 (as_name sp fixed (Some (restart_infix i k1))) in
@@ -721,7 +829,7 @@ Corollary related_files_restart_order : forall f sp sfx fixed i j k1 k2 (g1 g2 :
   In n1 (related_files f sfx fixed) -> In n2 (related_files f sfx fixed) ->
   exists l1 l2 l3, related_files f sfx fixed = l1 ++ n2 :: l2 ++ n1 :: l3.
 Proof.
-  intros f sp sfx fixed i j k1 k2 g1 g2 Hs Hne Hc Hgz Hlt n1 n2. unfold related_files.
+  intros f sp sfx fixed i j k1 k2 g1 g2 Hs Hne Hgz Hlt n1 n2. unfold related_files.
   rewrite <- !in_rev, !In_sort_by_key. apply listing_restart_order with (j := j); assumption.
 Qed.
 
@@ -735,7 +843,7 @@ Definition ex_fixed : bytes := bs "a"%string.
 Definition ex_infix : bytes := bs "r2024-02-29_23-59-58"%string.
 
 Example ex_hypotheses :
-  ex_infix <> [] /\ contains restart_tag (under ex_fixed ++ ex_infix) = false /\
+  ex_infix <> [] /\
   strip_suffix (dot :: gz_sfx) (as_name ex_sp ex_fixed (Some ex_infix)) = None /\
   as_name ex_sp ex_fixed (Some (restart_infix ex_infix 9999)) = bs "a_r2024-02-29_23-59-58.restart-9999.trc"%string /\
   as_name ex_sp ex_fixed (Some (restart_infix ex_infix 10000)) = bs "a_r2024-02-29_23-59-58.restart-10000.trc"%string.
@@ -754,6 +862,49 @@ Example ex_conclusion :
    negb (lex_le n1 n2)) = true /\
   rev (sort_by_key (Some (bs "trc"%string)) [n1; gz n2; n0]) = [gz n2; n1; n0].
 Proof. vm_compute. split; reflexivity. Qed.
+
+(* the fixed name part may contain ".restart-" itself: basename "a.restart-7".  The sort key reads the counter behind
+   the LAST ".restart-" of the stem (str::rsplit_once), so 9999 still sorts before 10000, and the file without counter
+   first; with the first occurrence (str::split_once, the code before the repair) all three names had the main part "a"
+   and no restart key, and the byte order put 10000 before 9999 *)
+Definition ex_sp7 : file_spec := {| fbase := bs "a.restart-7"%string; fdisc := None; fts := false; fsfx := Some (bs "trc"%string) |}.
+Definition ex_fixed7 : bytes := bs "a.restart-7"%string.
+Example ex_tag_in_basename :
+  let n0 := as_name ex_sp7 ex_fixed7 (Some ex_infix) in
+  let n1 := as_name ex_sp7 ex_fixed7 (Some (restart_infix ex_infix 9999)) in
+  let n2 := as_name ex_sp7 ex_fixed7 (Some (restart_infix ex_infix 10000)) in
+  let gz n := n ++ dot :: gz_sfx in
+  contains restart_tag (under ex_fixed7 ++ ex_infix) = true /\
+  n1 = bs "a.restart-7_r2024-02-29_23-59-58.restart-9999.trc"%string /\
+  n2 = bs "a.restart-7_r2024-02-29_23-59-58.restart-10000.trc"%string /\
+  sort_key (Some (bs "trc"%string)) n1 = (bs "a.restart-7_r2024-02-29_23-59-58"%string, Some (4%nat, bs "9999"%string)) /\
+  sort_key (Some (bs "trc"%string)) n2 = (bs "a.restart-7_r2024-02-29_23-59-58"%string, Some (5%nat, bs "10000"%string)) /\
+  sort_key (Some (bs "trc"%string)) n0 = (bs "a.restart-7_r2024-02-29_23-59-58"%string, None) /\
+  (key_le (Some (bs "trc"%string)) n0 n1 && negb (key_le (Some (bs "trc"%string)) n1 n0) &&
+   key_le (Some (bs "trc"%string)) n1 n2 && negb (key_le (Some (bs "trc"%string)) n2 n1) &&
+   key_le (Some (bs "trc"%string)) (gz n1) n2 && negb (key_le (Some (bs "trc"%string)) n2 (gz n1)) &&
+   negb (lex_le n1 n2)) = true /\
+  rev (sort_by_key (Some (bs "trc"%string)) [n1; gz n2; n0]) = [gz n2; n1; n0].
+Proof. vm_compute. repeat split; reflexivity. Qed.
+
+(* the same from the theorems, which have no hypothesis on ".restart-" any more *)
+Example ex_tag_in_basename_thm :
+  key_le (Some (bs "trc"%string)) (as_name ex_sp7 ex_fixed7 (Some (restart_infix ex_infix 9999)))
+                                   (as_name ex_sp7 ex_fixed7 (Some (restart_infix ex_infix 10000))) = true /\
+  key_le (Some (bs "trc"%string)) (as_name ex_sp7 ex_fixed7 (Some (restart_infix ex_infix 10000)))
+                                   (as_name ex_sp7 ex_fixed7 (Some (restart_infix ex_infix 9999))) = false.
+Proof. apply (naming_b ex_sp7 (Some (bs "trc"%string)) ex_fixed7 ex_infix 9999 10000); [reflexivity | discriminate | vm_compute; reflexivity | lia]. Qed.
+
+(* a plain name whose own stem ends with ".restart-<digits>" (infix "x.restart-3"): its main part is a proper prefix
+   of the main part of its restart siblings, it still sorts first *)
+Example ex_tag_at_end_of_infix :
+  let i := bs "x.restart-3"%string in
+  let n0 := as_name ex_sp ex_fixed (Some i) in
+  let n1 := as_name ex_sp ex_fixed (Some (restart_infix i 0)) in
+  sort_key (Some (bs "trc"%string)) n0 = (bs "a_x"%string, Some (1%nat, bs "3"%string)) /\
+  sort_key (Some (bs "trc"%string)) n1 = (bs "a_x.restart-3"%string, Some (0%nat, [])) /\
+  key_le (Some (bs "trc"%string)) n0 n1 = true /\ key_le (Some (bs "trc"%string)) n1 n0 = false.
+Proof. vm_compute. repeat split; reflexivity. Qed.
 
 (* the hypothesis on ".gz" cannot be dropped: with a suffix that ends with ".gz" the sort key takes the suffix for
    the compression mark, finds no restart counter, and 10000 sorts before 9999 *)
